@@ -29,7 +29,7 @@ fn gen_scenario(rng: &mut vsim::rng::Rng) -> Scenario {
         adversary: None,
         dup: false,
         generators: rng.below(3) == 0,
-        hooks: false,
+        hooks: rng.below(4) == 0,
         outputs: true, drop_outputs: true
     };
     let mut sc = gen_lifecycle(rng, &opts);
